@@ -22,8 +22,9 @@ from vlib import Check, run_tlc, tlc_must_pass, run_cases
 
 PROP = "C19"
 
-# (mode, quick stride, thorough stride)
-MODES = [("args", 1, 1), ("huge", 27, 4), ("extreme", 25, 1), ("main", 29, 1)]
+# (mode of MC_Fmt, quick stride, thorough stride): 1 = the whole universe, n = a seeded 1/n of it
+MODES = [("args", 1, 1), ("huge", 27, 4), ("extreme", 25, 1), ("main", 13, 1)]
+BATCH = 30000          # cases per harness batch (bounds memory in the thorough tier)
 
 
 def _cfg(mode, seed, stride, all_forms):
@@ -39,18 +40,118 @@ def _cfg(mode, seed, stride, all_forms):
     return path
 
 
-def _conv_of(case):
-    m = case.get("meta")
-    return chr(m["conv"]) if m else "*"
-
-
-def _classify(exp, got_str, meta):
+def _classify(want, got, meta):
     """A coarse class for a wrong string (part of the violation signature)."""
-    if meta and len(got_str) < meta["fw"] >= 0:
+    if meta and meta["fw"] >= 0 and len(got) < meta["fw"]:
         return "field-shorter-than-width"
-    if got_str.strip(" 0") == exp.strip(" 0"):
+    if got.strip(" 0") == want.strip(" 0"):
         return "padding"
     return "wrong-string"
+
+
+class _Stats:
+    def __init__(self):
+        self.outcome = {"string": 0, "error": 0, "shape": 0, "outside": 0}
+        self.by_conv = {}
+        self.agree = {"ok": 0, "err": 0}
+        self.not_shared = 0
+        self.shape_ref_equal = 0
+        self.shape_total = 0
+        self.programs = 0
+        self.samples = {}
+
+
+def _selftest(batch, st):
+    """spec/Fmt.tla against Python's % wherever the conventions coincide."""
+    for c, fm in batch:
+        exp = fm["exp"]
+        if exp["k"] == "outside":
+            continue
+        op = fu.python_opinion(fm["fmt"], fm["vals"])
+        if op is None:
+            st.not_shared += 1
+            continue
+        mine = ("err",) if exp["k"] == "err" else ("ok", fu.rope_str(exp["r"]))
+        if mine != op:
+            raise vlib.ToolError(
+                "specification self-test failed (spec/Fmt.tla disagrees with Python's %%): fmt=%r vals=%s spec=%s "
+                "python=%s" % (fu.cps(fm["fmt"]["c"]), json.dumps(fm["vals"]), fu.short(str(mine)), fu.short(str(op))))
+        st.agree[op[0]] += 1
+
+
+def _replay(chk, batch, both_surfaces, st, tag):
+    progs, meta = [], []
+    for n, (c, fm) in enumerate(batch):
+        surfaces = fu.programs(fm["fmt"], fm["vals"])
+        if not both_surfaces:
+            surfaces = [surfaces[(c["idx"] + n) % 2]]
+        for sname, src in surfaces:
+            progs.append({"k": "eval", "src": src, "manifest": "string"})
+            meta.append((c, fm, sname))
+    results = run_cases(progs, "c19_" + tag, timeout_ms=10000)
+    st.programs += len(progs)
+    flip = os.environ.get("C19_DEBUG_FLIP")          # binding demonstration only
+    for prog, (c, fm, sname), res in zip(progs, meta, results):
+        exp = fm["exp"]
+        k = exp["k"]
+        m = c.get("meta")
+        conv = chr(m["conv"]) if m else "*"
+        fmt_text = fu.cps(fm["fmt"]["c"]) if fm["fmt"]["t"] == "str" else "<not a string>"
+        nontrivial = k != "outside" and re.search(r"%[^%]", fmt_text) is not None
+        chk.count(key=prog["src"], nontrivial=nontrivial)
+        sig = {"kind": "format", "universe": c["u"], "conv": conv, "form": fm["form"], "surface": sname,
+               "fmt": fmt_text[:40]}
+        shown = fu.short(prog["src"], 200)
+        if vlib.is_crash(res):
+            chk.disagree(dict(sig, **{"class": "crash"}), f"`{shown}` crashed: {vlib.crash_desc(res)}", prog)
+            continue
+        if "err" in res and res["err"].get("stage") != "eval":
+            raise vlib.ToolError(f"generated program is not valid Jsonnet: {prog['src'][:300]!r}: {res['err']}")
+        if k == "outside":
+            chk.outside += 1
+            st.outcome["outside"] += 1
+            continue
+        st.by_conv[conv] = st.by_conv.get(conv, 0) + 1
+        if c["u"] not in st.samples and k in ("ok", "err"):
+            st.samples[c["u"]] = {"src": prog["src"] if len(prog["src"]) < 140 else prog["src"][:140] + "...",
+                                  "expected": fu.short(fu.rope_str(exp["r"]), 80) if k == "ok"
+                                  else "error: " + exp["why"]}
+        if k == "err":
+            st.outcome["error"] += 1
+            if "err" not in res:
+                chk.disagree(dict(sig, **{"class": "missing-error"}),
+                             f"`{shown}` gives {fu.short(str(res.get('ok')))}, specification says error ({exp['why']})",
+                             dict(prog, expected="error: " + exp["why"]))
+            continue
+        st.outcome["string" if k == "ok" else "shape"] += 1
+        want = fu.rope_str(exp["r"])
+        if "err" in res or not isinstance(res.get("ok"), str):
+            msg = res["err"].get("msg", "") if "err" in res else json.dumps(res)
+            chk.disagree(dict(sig, **{"class": "unexpected-error"}),
+                         f"`{shown}` fails ({str(msg)[:160]}), specification says {fu.short(want)}",
+                         dict(prog, expected=fu.short(want, 300)))
+            continue
+        got = res["ok"]
+        if k == "ok":
+            if flip and flip in prog["src"]:
+                want = want + "!"
+            if got != want:
+                chk.disagree(dict(sig, **{"class": _classify(want, got, m)}),
+                             f"`{shown}` gives {fu.short(got)}, specification says {fu.short(want)}",
+                             dict(prog, expected=want if len(want) < 400 else fu.short(want, 300)))
+            continue
+        # shape: one directive whose digits the specification does not fix
+        if not m or fm["form"] == "G" or m["v"]["t"] != "num":
+            chk.outside += 1
+            continue
+        st.shape_total += 1
+        if got == want:
+            st.shape_ref_equal += 1
+        why = fu.shape_problem(m, got)
+        if why:
+            chk.disagree(dict(sig, **{"class": "shape"}),
+                         f"`{shown}` gives {fu.short(got)}: {why} (C reference: {fu.short(want)})",
+                         dict(prog, expected="shape: " + why))
 
 
 def run(tier, seed):
@@ -63,134 +164,50 @@ def run(tier, seed):
         "rendering of specification values as Jsonnet literals (lib/render.py); numeric literals are read exactly (C06/C14)",
         "digits of e E f F are decided for exact dyadic values m*2^e with m < 2^31 only; g G and magnitudes >= 2^53 "
         "by value-and-shape invariants",
-        "where upstream std.jsonnet and C/Python conflict by accident (sign of negative zero, negative fractions "
-        "under o/x, negative or fractional * arguments, %.0g) the case is outside the decided domain",
+        "where upstream std.jsonnet and C/Python conflict by accident (sign of negative zero and of negative values "
+        "printing as zero, negative fractions under o/x, negative or fractional * arguments, %.0g, %c of a fraction) "
+        "the case is outside the decided domain",
+        "only error-vs-string is compared for failing cases, not the message",
     ]
     vlib.build_harness()
-    r = vlib.rng(seed, "c19")
-    emitted = []                    # (case, form)
+    st = _Stats()
     for mode, qs, ts in MODES:
         stride = qs if quick else ts
         cfg = _cfg(mode, seed, stride, all_forms=not quick)
-        res = run_tlc("MC_Fmt", cfg, f"c19_{mode}", workers=8, heap="6g", coverage=False)
+        res = run_tlc("MC_Fmt", cfg, f"c19_{mode}", workers=8, heap="6g", coverage=False, timeout=2400)
         tlc_must_pass(res, f"Fmt laws / emission ({mode})")
         chk.add_tlc(res, f"{mode}: laws of Fmt.tla + case emission (stride {stride})")
-        cases = list(res.lines("CASE"))
-        for c in cases:
+        batch, nb = [], 0
+        for c in res.lines("CASE"):
             for fm in c["forms"]:
-                emitted.append((c, fm))
-    # the huge universe (70000-character results) is always a seeded subset
-    exhaustive = False
-
-    # ---- specification self-test against Python's % -----------------------
-    agree = {"ok": 0, "err": 0}
-    not_shared = 0
-    for c, fm in emitted:
-        exp = fm["exp"]
-        if exp["k"] == "outside":
-            continue
-        op = fu.python_opinion(fm["fmt"], fm["vals"])
-        if op is None:
-            not_shared += 1
-            continue
-        mine = ("err",) if exp["k"] == "err" else ("ok", fu.rope_str(exp["r"]))
-        if mine != op:
-            raise vlib.ToolError(
-                "specification self-test failed (spec/Fmt.tla disagrees with Python's %): fmt=%r vals=%s spec=%s python=%s"
-                % (fu.cps(fm["fmt"]["c"]), json.dumps(fm["vals"]), fu.short(str(mine)), fu.short(str(op))))
-        agree[op[0]] += 1
-
-    # ---- replay into the implementation ------------------------------------
-    progs, meta = [], []
-    for n, (c, fm) in enumerate(emitted):
-        surfaces = fu.programs(fm["fmt"], fm["vals"])
-        if quick:
-            surfaces = [surfaces[(c["idx"] + n) % 2]]
-        for sname, src in surfaces:
-            progs.append({"k": "eval", "src": src, "manifest": "string"})
-            meta.append((c, fm, sname))
-    results = run_cases(progs, "c19", timeout_ms=10000)
-    flip = os.environ.get("C19_DEBUG_FLIP")          # binding demonstration only
-    outcome = {"string": 0, "error": 0, "shape": 0, "outside": 0}
-    by_conv = {}
-    g_ref_equal = 0
-    g_total = 0
-    for prog, (c, fm, sname), res in zip(progs, meta, results):
-        exp = fm["exp"]
-        k = exp["k"]
-        conv = _conv_of(c)
-        fmt_text = fu.cps(fm["fmt"]["c"]) if fm["fmt"]["t"] == "str" else ""
-        nontrivial = k != "outside" and re.search(r"%[^%]", fmt_text) is not None
-        chk.count(key=prog["src"], nontrivial=nontrivial)
-        sig = {"kind": "format", "universe": c["u"], "conv": conv, "form": fm["form"], "surface": sname}
-        if vlib.is_crash(res):
-            chk.disagree(dict(sig, **{"class": "crash"}),
-                         f"`{fu.short(prog['src'], 200)}` crashed: {vlib.crash_desc(res)}", prog)
-            continue
-        if k == "outside":
-            chk.outside += 1
-            outcome["outside"] += 1
-            continue
-        by_conv[conv] = by_conv.get(conv, 0) + 1
-        if k == "err":
-            outcome["error"] += 1
-            if "err" not in res:
-                chk.disagree(dict(sig, **{"class": "missing-error"}),
-                             f"`{fu.short(prog['src'], 200)}` gives {fu.short(str(res.get('ok')))}, specification "
-                             f"says error ({exp['why']})", dict(prog, expected="error: " + exp["why"]))
-            continue
-        if "err" in res or not isinstance(res.get("ok"), str):
-            outcome["string" if k == "ok" else "shape"] += 1
-            chk.disagree(dict(sig, **{"class": "unexpected-error"}),
-                         f"`{fu.short(prog['src'], 200)}` fails ({json.dumps(res.get('err', res))[:200]}), specification "
-                         f"says {fu.short(fu.rope_str(exp['r']))}", dict(prog, expected=fu.rope_str(exp["r"])[:400]))
-            continue
-        got = res["ok"]
-        if k == "ok":
-            outcome["string"] += 1
-            want = fu.rope_str(exp["r"])
-            if flip and flip in prog["src"]:
-                want = want + "!"
-            if got != want:
-                cls = _classify(want, got, c.get("meta"))
-                chk.disagree(dict(sig, **{"class": cls}),
-                             f"`{fu.short(prog['src'], 200)}` gives {fu.short(got)}, specification says {fu.short(want)}",
-                             dict(prog, expected=want if len(want) < 400 else fu.short(want, 300)))
-        else:
-            outcome["shape"] += 1
-            m = c.get("meta")
-            if not m or fm["form"] == "G" or m["v"]["t"] != "num":
-                chk.outside += 1
-                continue
-            g_total += 1
-            if got == fu.rope_str(exp["r"]):
-                g_ref_equal += 1
-            why = fu.shape_problem(m, got)
-            if why:
-                chk.disagree(dict(sig, **{"class": "shape"}),
-                             f"`{fu.short(prog['src'], 200)}` gives {fu.short(got)}: {why} (C reference: "
-                             f"{fu.short(fu.rope_str(exp['r']))})", dict(prog, expected="shape: " + why))
-    chk.traces_validated = len(progs)
+                batch.append((c, fm))
+            if len(batch) >= BATCH:
+                _selftest(batch, st)
+                _replay(chk, batch, not quick, st, f"{mode}{nb}")
+                batch, nb = [], nb + 1
+        if batch:
+            _selftest(batch, st)
+            _replay(chk, batch, not quick, st, f"{mode}{nb}")
+    chk.traces_validated = st.programs
+    # main / args / extreme are enumerated completely in the thorough tier; the huge universe
+    # (70000-character results) is always a seeded subset
+    chk.exhaustive = False
     vc = {}
     for sig_, what_, _p in chk.violations:
         kk = f"{sig_['class']}|{sig_['universe']}|%{sig_['conv']}"
         vc.setdefault(kk, [0, what_[:240]])[0] += 1
     chk.extra["disagreement_classes"] = {k_: {"count": v_[0], "example": v_[1]} for k_, v_ in sorted(vc.items())}
-    chk.exhaustive = exhaustive
-    chk.extra["outcome_classes"] = outcome
-    chk.extra["evaluations_by_conversion"] = dict(sorted(by_conv.items()))
-    chk.extra["spec_selftest_vs_python"] = {"equal_strings": agree["ok"], "both_error": agree["err"],
-                                            "conventions_differ_not_compared": not_shared}
-    chk.extra["shape_results_equal_to_c_reference"] = {"equal": g_ref_equal, "of": g_total}
-    for want_u in ("main", "huge", "args", "extreme"):
-        for prog, (c, fm, _s) in zip(progs, meta):
-            if c["u"] == want_u and fm["exp"]["k"] in ("ok", "err"):
-                e = fm["exp"]
-                chk.sample({"src": fu.short(prog["src"], 120),
-                            "expected": fu.short(fu.rope_str(e["r"]), 80) if e["k"] == "ok" else "error: " + e["why"]})
-                break
-    if outcome["string"] == 0 or outcome["error"] == 0 or outcome["shape"] == 0:
-        raise vlib.ToolError("vacuous run: an outcome class is empty: %r" % outcome)
+    chk.extra["outcome_classes"] = st.outcome
+    chk.extra["evaluations_by_conversion"] = dict(sorted(st.by_conv.items()))
+    chk.extra["spec_selftest_vs_python"] = {"equal_strings": st.agree["ok"], "both_error": st.agree["err"],
+                                            "conventions_differ_not_compared": st.not_shared}
+    chk.extra["shape_results_equal_to_c_reference"] = {"equal": st.shape_ref_equal, "of": st.shape_total}
+    for u in ("main", "huge", "args", "extreme"):
+        if u in st.samples:
+            chk.sample(st.samples[u])
+    if min(st.outcome["string"], st.outcome["error"], st.outcome["shape"]) == 0 or len(st.by_conv) < 16:
+        raise vlib.ToolError("vacuous run: an outcome class or a conversion is missing: %r %r"
+                             % (st.outcome, sorted(st.by_conv)))
     return chk.finish()
 
 
